@@ -83,3 +83,53 @@ Qed.
 Example sweep_example :
   sweep [(0,0); (0,3); (2,3); (2,0)] = Some (13, (36, 9)).
 Proof. vm_compute. reflexivity. Qed.
+
+(* ---------------------------------------------------------------- the sweep never runs out of fuel *)
+Lemma sweep_loop_terminates h n : forall fuel v a acc,
+  (v < a < n)%nat -> (2 * n - a - v < fuel)%nat -> sweep_loop fuel h n v a acc <> None.
+Proof.
+  induction fuel as [|f IH]; intros v a acc Hva Hf; [lia|].
+  cbn [sweep_loop].
+  set (adv := cross2 (pnth a h) (pnth v h) (pnth (S v) h) <=?
+              cross2 (pnth (if (S a =? n)%nat then 0%nat else S a) h) (pnth v h) (pnth (S v) h)).
+  destruct (((if adv then S a else a) <? n)%nat && negb ((if adv then v else S v) =? (if adv then S a else a))%nat) eqn:C;
+    [|discriminate].
+  apply IH; apply andb_true_iff in C; destruct adv; lia.
+Qed.
+
+Lemma first_argmax_some pm p1 : forall vs k best, (vs <> [] \/ best <> None) -> first_argmax vs pm p1 k best <> None.
+Proof.
+  induction vs as [|v t IH]; intros k best H; cbn [first_argmax].
+  - destruct H as [H|H]; [congruence|exact H].
+  - apply IH. right. destruct best as [[bk bc]|]; [destruct (bc <? cross2 v pm p1)|]; discriminate.
+Qed.
+
+Theorem sweep_terminates h : sweep h <> None.
+Proof.
+  unfold sweep. destruct (antipodal_pairs h) as [ps|] eqn:AP; [discriminate|]. exfalso.
+  unfold antipodal_pairs in AP.
+  destruct (length h) as [|[|[|n]]] eqn:Ln; try discriminate.
+  destruct (first_argmax (firstn (S (S (S n)) - 2) (skipn 1 h)) (pnth (S (S (S n)) - 1) h) (pnth 0 h) 1 None)
+    as [[a c]|] eqn:FA.
+  - pose proof FA as FA'. apply first_argmax_range in FA'.
+    assert (Ha : (1 <= a < S (S n))%nat).
+    { destruct FA' as [X|[[c' X]|X]]; [discriminate|discriminate|].
+      rewrite firstn_length, skipn_length, Ln in X. lia. }
+    revert AP. apply sweep_loop_terminates; lia.
+  - revert FA. apply first_argmax_some. left.
+    assert (L : length (firstn (S (S (S n)) - 2) (skipn 1 h)) = S n) by (rewrite firstn_length, skipn_length, Ln; lia).
+    intro E. rewrite E in L. discriminate.
+Qed.
+
+(* ---------------------------------------------------------------- the advance test, exactly *)
+(* distance2_to_line(pt, l0, l1) = cross^2 / |l1 - l0|^2; inside the sweep both distances are taken
+   to the same line, so the rational comparison dc <= dn IS the comparison of the integer
+   numerators that the model performs.  (The code compares the correctly rounded doubles of these
+   two rationals; rounding is monotone, so the decisions can differ only when dc > dn round to the
+   same double, which needs numerators above 2^53, i.e. object diameters above 9 741.) *)
+From Coq Require Import QArith.
+Lemma advance_test_exact (n1 n2 den : Z) : (0 < den)%Z ->
+  ((inject_Z n1 / inject_Z den <= inject_Z n2 / inject_Z den)%Q <-> (n1 <= n2)%Z).
+Proof.
+  intro D. unfold Qdiv, Qle, Qmult, Qinv, inject_Z. destruct den as [|p|p]; try lia. cbn [Qnum Qden]. nia.
+Qed.
